@@ -826,19 +826,19 @@ Definition fmt_lazy_only (strings : smap) (fk : name -> option fkind) (ns nf : n
   end.
 
 (* THE CLASS: records the lazy path may accept although read_record_buf rejects them.  A decidable
-   predicate of the input, computed from the lazy walk of the same bytes *)
+   predicate of the input, computed from the lazy walk of the same bytes.  (Since 30014e8 the lazy path
+   rejects n_sample above the header's sample count as the eager reader does: that part is gone.) *)
 Definition lazy_only (strings : smap) (ik : name -> option ikind) (fk : name -> option fkind)
-  (hs : Z) (bs : list N) : bool :=
+  (bs : list N) : bool :=
   match dec_frame bs with
   | Some (sb, ib, _) =>
     site_lazy_only sb
     || match lz_index sb, lz_sample_count sb, lz_format_count sb, lz_u16 16 sb with
        | ROk bd, ROk nsz, ROk nf, ROk ni =>
-         (hs <? nsz)
-         || match lz_slice (b_filters_end bd) (length sb) sb with
-            | ROk info_bytes => info_lazy_only strings ik (Z.to_nat ni) info_bytes
-            | _ => false
-            end
+         match lz_slice (b_filters_end bd) (length sb) sb with
+         | ROk info_bytes => info_lazy_only strings ik (Z.to_nat ni) info_bytes
+         | _ => false
+         end
          || fmt_lazy_only strings fk (Z.to_nat nsz) (Z.to_nat nf) ib
        | _, _, _, _ => false
        end
@@ -861,12 +861,12 @@ Qed.
 (* the eager reader accepts what the lazy path accepts, outside [lazy_only] *)
 Theorem lazy_accepts_eager_accepts : forall v44 strings contigs ik fk hs bs t',
   byte_list bs ->
-  lazy_read v44 strings contigs ik fk bs = ROk t' ->
-  lazy_only strings ik fk hs bs = false ->
+  lazy_read_hdr v44 strings contigs ik fk hs bs = ROk t' ->
+  lazy_only strings ik fk bs = false ->
   exists t, dec_record_typed strings contigs ik fk hs bs = ROk t.
 Proof.
   intros v44 strings contigs ik fk hs bs t' Hbytes H Hcls.
-  unfold lazy_read in H. unfold lazy_only in Hcls.
+  unfold lazy_read_hdr, lazy_read_gen in H. unfold lazy_only in Hcls.
   destruct (dec_frame bs) as [[[sb ib] rest]|] eqn:Ef; [|discriminate].
   destruct (dec_frame_bytes _ _ _ _ Hbytes Ef) as [Hbs Hbi].
   destruct (lz_index sb) as [bd| |] eqn:Eidx; try discriminate. cbn [rbind] in H.
@@ -878,7 +878,7 @@ Proof.
   destruct (lz_qual sb) as [qual| |] eqn:Eq; try discriminate. cbn [rbind] in H.
   destruct (lz_filters strings bd sb) as [filters| |] eqn:Efl; try discriminate. cbn [rbind] in H.
   destruct (lz_info strings ik bd sb) as [info| |] eqn:Einfo; try discriminate. cbn [rbind] in H.
-  destruct (lz_samples v44 strings fk sb ib) as [kr| |] eqn:Esam; try discriminate. clear H.
+  destruct (lz_samples v44 strings fk (Some hs) sb ib) as [kr| |] eqn:Esam; try discriminate. clear H.
   apply orb_false_iff in Hcls. destruct Hcls as [Hsite Hcls].
   (* the site *)
   destruct (site_converse strings contigs sb bd chrom pos qual rf alts filters Eidx Ec Ep Eq Er Ea Efl Hsite)
@@ -887,7 +887,7 @@ Proof.
   assert (bd' = bd) as Hbd by (pose proof (sv_index _ _ _ _ _ _ Hsv) as Hx; rewrite Eidx in Hx; injection Hx as Hx; symmetry; exact Hx).
   subst bd'.
   rewrite (sv_nsample _ _ _ _ _ _ Hsv), (sv_nfmt _ _ _ _ _ _ Hsv), (sv_ninfo _ _ _ _ _ _ Hsv), (sv_info _ _ _ _ _ _ Hsv) in Hcls.
-  apply orb_false_iff in Hcls. destruct Hcls as [Hcls Hfmt]. apply orb_false_iff in Hcls. destruct Hcls as [Hhs Hinfo].
+  apply orb_false_iff in Hcls. destruct Hcls as [Hinfo Hfmt].
   (* INFO *)
   unfold lz_info in Einfo. rewrite (sv_info _ _ _ _ _ _ Hsv) in Einfo. cbn [rbind] in Einfo.
   rewrite (sv_ninfo _ _ _ _ _ _ Hsv) in Einfo. cbn [rbind] in Einfo.
@@ -900,6 +900,7 @@ Proof.
   rewrite (sv_nfmt _ _ _ _ _ _ Hsv) in Esam. cbn [rbind] in Esam. cbv zeta in Esam.
   remember (Z.to_nat (h_n_sample h)) as ns eqn:Ens.
   destruct (lz_validate ns (Z.to_nat (h_n_fmt h)) ib); [|discriminate].
+  cbn [too_many_samples] in Esam. destruct (hs <? h_n_sample h) eqn:Hhs; [discriminate|].
   destruct (lz_n_series ns (Z.to_nat (h_n_fmt h)) ib) as [ss|] eqn:Ess; [|discriminate].
   destruct (lz_names strings ss) as [nms| |] eqn:Enm; try discriminate. cbn [rbind] in Esam.
   destruct (lz_columns v44 fk ns nms ss) as [cols| |] eqn:Ecols; try discriminate.
@@ -923,39 +924,39 @@ Qed.
    eager model) a record the lazy path accepts is accepted by the eager reader, with the same RecordBuf *)
 Theorem lazy_converse : forall v44 strings contigs ik fk hs bs t',
   byte_list bs ->
-  lazy_read v44 strings contigs ik fk bs = ROk t' ->
-  lazy_only strings ik fk hs bs = false ->
+  lazy_read_hdr v44 strings contigs ik fk hs bs = ROk t' ->
+  lazy_only strings ik fk bs = false ->
   lazy_agree strings contigs ik fk hs bs = true ->
   exists t, dec_record_typed strings contigs ik fk hs bs = ROk t /\ trec_norm v44 t' = trec_norm v44 t.
 Proof.
   intros v44 strings contigs ik fk hs bs t' Hb H Hcls Hag.
   destruct (lazy_accepts_eager_accepts v44 strings contigs ik fk hs bs t' Hb H Hcls) as [t Ht].
   exists t. split; [exact Ht|].
-  destruct (lazy_eq_eager v44 strings contigs ik fk hs bs t Hb Ht Hag) as [t'' [Hl Hn]].
+  destruct (lazy_hdr_eq_eager v44 strings contigs ik fk hs bs t Hb Ht Hag) as [t'' [Hl Hn]].
   rewrite H in Hl. injection Hl as Hl. subst t''. exact Hn.
 Qed.
 
 (* both directions together: outside the two classes the two readers accept the same records and build
    the same RecordBuf *)
 Corollary lazy_iff_eager : forall v44 strings contigs ik fk hs bs,
-  byte_list bs -> lazy_only strings ik fk hs bs = false -> lazy_agree strings contigs ik fk hs bs = true ->
-  ((exists t', lazy_read v44 strings contigs ik fk bs = ROk t') <->
+  byte_list bs -> lazy_only strings ik fk bs = false -> lazy_agree strings contigs ik fk hs bs = true ->
+  ((exists t', lazy_read_hdr v44 strings contigs ik fk hs bs = ROk t') <->
    (exists t, dec_record_typed strings contigs ik fk hs bs = ROk t)) /\
-  (lazy_read v44 strings contigs ik fk bs = RErr <-> dec_record_typed strings contigs ik fk hs bs = RErr).
+  (lazy_read_hdr v44 strings contigs ik fk hs bs = RErr <-> dec_record_typed strings contigs ik fk hs bs = RErr).
 Proof.
   intros v44 strings contigs ik fk hs bs Hb Hcls Hag.
-  assert ((exists t', lazy_read v44 strings contigs ik fk bs = ROk t') <->
+  assert ((exists t', lazy_read_hdr v44 strings contigs ik fk hs bs = ROk t') <->
           (exists t, dec_record_typed strings contigs ik fk hs bs = ROk t)) as Hiff.
   { split.
     - intros [t' H]. apply (lazy_accepts_eager_accepts v44 strings contigs ik fk hs bs t' Hb H Hcls).
-    - intros [t H]. destruct (lazy_eq_eager v44 _ _ _ _ _ _ _ Hb H Hag) as [t' [Ht' _]]. exists t'. exact Ht'. }
+    - intros [t H]. destruct (lazy_hdr_eq_eager v44 _ _ _ _ _ _ _ Hb H Hag) as [t' [Ht' _]]. exists t'. exact Ht'. }
   split; [exact Hiff|]. split.
   - intros E. destruct (dec_record_typed strings contigs ik fk hs bs) as [t| |] eqn:Ed; [|reflexivity|].
     + destruct (proj2 Hiff (ex_intro _ t eq_refl)) as [t' Ht']. rewrite E in Ht'. discriminate.
     + exfalso. exact (dec_record_typed_np _ _ _ _ _ _ Ed).
-  - intros E. destruct (lazy_read v44 strings contigs ik fk bs) as [t'| |] eqn:El; [|reflexivity|].
+  - intros E. destruct (lazy_read_hdr v44 strings contigs ik fk hs bs) as [t'| |] eqn:El; [|reflexivity|].
     + destruct (proj1 Hiff (ex_intro _ t' eq_refl)) as [t Ht]. rewrite E in Ht. discriminate.
-    + exfalso. exact (lazy_read_never_panics _ _ _ _ _ _ El).
+    + exfalso. exact (lazy_read_hdr_never_panics _ _ _ _ _ _ _ El).
 Qed.
 
 (* ================================================================ the class is exact *)
@@ -1171,7 +1172,7 @@ Theorem eager_accepts_not_lazy_only : forall strings contigs ik fk hs bs t,
   byte_list bs ->
   dec_record_typed strings contigs ik fk hs bs = ROk t ->
   lazy_agree strings contigs ik fk hs bs = true ->
-  lazy_only strings ik fk hs bs = false.
+  lazy_only strings ik fk bs = false.
 Proof.
   intros strings contigs ik fk hs bs t Hbytes H Hag.
   unfold dec_record_typed in H. unfold lazy_agree in Hag.
@@ -1199,7 +1200,6 @@ Proof.
   unfold lazy_only. rewrite Ef. rewrite (site_not_lazy_only _ _ _ _ _ Eh). cbn [orb].
   rewrite (sv_index _ _ _ _ _ _ Hsv), (sv_nsample _ _ _ _ _ _ Hsv), (sv_nfmt _ _ _ _ _ _ Hsv),
           (sv_ninfo _ _ _ _ _ _ Hsv), (sv_info _ _ _ _ _ _ Hsv).
-  rewrite Ehs. cbn [orb].
   unfold info_lazy_only. rewrite Hlif. rewrite Hkeys, Hdist. cbn [negb orb].
   rewrite (info_char_ascii_of_eager strings ik _ _ _ _ _ Ei Em1). cbn [negb orb].
   unfold fmt_lazy_only. rewrite <- Ens. rewrite Hall. rewrite (names_agree _ _ _ Hf2).
@@ -1209,7 +1209,7 @@ Qed.
 (* in the other words: every member of the class is rejected by the eager reader *)
 Corollary lazy_only_eager_rejects : forall strings contigs ik fk hs bs,
   byte_list bs -> lazy_agree strings contigs ik fk hs bs = true ->
-  lazy_only strings ik fk hs bs = true ->
+  lazy_only strings ik fk bs = true ->
   dec_record_typed strings contigs ik fk hs bs = RErr.
 Proof.
   intros strings contigs ik fk hs bs Hb Ha Hc.
